@@ -58,7 +58,24 @@ def run_property(prop, tier, seed, only=None):
     rnd.shuffle(order)
     order.sort(key=lambda h: -h.get("cost", 1))  # long ones first
 
-    prep = prepare.prepare(sorted({h["crate"] for h in harnesses}), prop, tier, seed)
+    crates = sorted({h["crate"] for h in harnesses})
+    if prop == "C16":
+        # C16 also regenerates the corpus encodings (front end, table construction and
+        # generator run natively on every corpus grammar): a PANIC there falsifies C16 directly
+        crates = sorted(set(crates) | {"e3", "e4"})
+    prep = prepare.prepare(crates, prop, tier, seed)
+    if prep.get("compiler_panic") and prop == "C16":
+        cp = prep["compiler_panic"]
+        os.makedirs(os.path.join(WORK, "replays"), exist_ok=True)
+        path = os.path.join(WORK, "replays", "C16-compiler-panic.json")
+        json.dump({"property": "C16", "harness": "corpus regeneration (native run of the real compiler; not a solver verdict)", "failed_checks": [{"description": "the compiler panicked instead of returning a parser or a diagnostic"}],
+                   "reproduced_natively": ["%s %s" % (cp["grammar"], " ".join(cp["args"]))],
+                   "how_to_replay": "%s %s %s --out /dev/null  (prints {\"panic\":true}); or: rcomp %s" % (os.path.join(WORK, "target-native", "release", "vdump"), cp["grammar"], " ".join(a for a in cp["args"] if not a.startswith("(")), cp["grammar"])},
+                  open(path, "w"), indent=1)
+        print("  the real compiler PANICKED on corpus grammar %s %s" % (cp["grammar"], " ".join(cp["args"])))
+        print("VIOLATION property=C16 replay=%s" % path)
+        write_evidence(prop, tier, seed, spec, [], prep, time.time() - t0, 1, note="compiler panic on a corpus grammar: " + prep["error"])
+        return 1
     if prep.get("error"):
         print("INCONCLUSIVE: property=%s encoding: %s" % (prop, prep["error"]))
         write_evidence(prop, tier, seed, spec, [], prep, time.time() - t0, 0, note="encoding failed: " + prep["error"])
